@@ -1,6 +1,6 @@
 (* Theorems about the host layers of the model (Host.v) and the trace predicates of Check.v. *)
 From Coq Require Import List Arith Bool Lia.
-From Crux Require Import Rt.Lang Rt.Rt Rt.Host Rt.Check.
+From Crux Require Import Rt.Lang Rt.Rt Rt.Host Rt.Check Rt.Frame Rt.Perm.
 Import ListNotations.
 
 Section WithFuel.
@@ -135,6 +135,83 @@ Proof.
   - some_eq E. split; [exact S1 | split; [exact R1 | exact EV]].
   - eapply IH; eauto.
 Qed.
+
+(* ---------- C01: every requested effect is handed over exactly once ---------- *)
+(* Effects reach the shell through the core's request channel.  No step of a call - polling any task of
+   any command at any depth, dropping finished commands, spawning the commands update returns - removes or
+   rewrites anything in it: during a call the channel only grows; the call then returns the WHOLE channel,
+   leaves it empty and records each returned request once in the shell's table.  So an effect that reached
+   the channel is in the return value of exactly that call: not dropped, not duplicated, not left for a later
+   call. *)
+Lemma new_cmd_hout names ep en m ex H cid H1 : new_cmd names ep en m ex H = (cid, H1) -> Rhout H H1.
+Proof.
+  apply (R_new_cmd Rhout Rhout_refl Rhout_trans (fun c f H _ => Rhout_same H (ucmd c f H) eq_refl)); intros; apply Rhout_same; reflexivity.
+Qed.
+Lemma xrun_task_hout : forall fuel q k k', xrun_task FUEL fuel q k = Some k' -> Rhout (k_H k) (k_H k').
+Proof.
+  induction fuel as [|f IH]; intros q k k' E; [discriminate|]. cbn [xrun_task] in E.
+  destruct (xget q (k_slab k)); [|some_eq E; apply Rhout_refl].
+  destruct (poll_next FUEL n (WExec q) (k_H k)) as [[r H1]|] eqn:EP; [|discriminate].
+  apply hout_poll_next in EP.
+  destruct r as [| |eff|ev].
+  - some_eq E. exact EP.
+  - some_eq E. cbn [k_H]. eapply Rhout_trans; [exact EP | apply hout_drop_cmd].
+  - apply IH in E. cbn [k_H] in E. eapply Rhout_trans; [exact EP|]. eapply Rhout_trans; [|exact E]. exists [eff]. reflexivity.
+  - apply IH in E. cbn [k_H] in E. eapply Rhout_trans; [exact EP | exact E].
+Qed.
+Lemma xspawn_all_hout : forall fuel k k', xspawn_all FUEL fuel k = Some k' -> Rhout (k_H k) (k_H k').
+Proof.
+  induction fuel as [|f IH]; intros k k' E; [discriminate|]. cbn [xspawn_all] in E.
+  destruct (k_spawn k); [some_eq E; apply Rhout_refl|].
+  destruct (xinsert n (k_slab k)) as [q sl].
+  match type of E with match ?x with _ => _ end = _ => destruct x as [k1|] eqn:E1; [|discriminate] end.
+  apply xrun_task_hout in E1. apply IH in E. cbn [k_H] in E1. eapply Rhout_trans; [exact E1 | exact E].
+Qed.
+Lemma xready_all_hout : forall fuel k k', xready_all FUEL fuel k = Some k' -> Rhout (k_H k) (k_H k').
+Proof.
+  induction fuel as [|f IH]; intros k k' E; [discriminate|]. cbn [xready_all] in E.
+  destruct (xready (k_H k)); [some_eq E; apply Rhout_refl|].
+  match type of E with match ?x with _ => _ end = _ => destruct x as [k1|] eqn:E1; [|discriminate] end.
+  apply xrun_task_hout in E1. apply IH in E. cbn [k_H setH] in E1.
+  eapply Rhout_trans; [|exact E]. eapply Rhout_trans; [|exact E1]. apply Rhout_same. reflexivity.
+Qed.
+Lemma run_all_hout : forall fuel k k', run_all FUEL fuel k = Some k' -> Rhout (k_H k) (k_H k').
+Proof.
+  induction fuel as [|f IH]; intros k k' E; [discriminate|]. cbn [run_all] in E.
+  assert (Hstep : forall k1 k2, xspawn_all FUEL FUEL k = Some k1 -> xready_all FUEL FUEL k1 = Some k2 ->
+                  run_all FUEL f k2 = Some k' -> Rhout (k_H k) (k_H k')).
+  { intros k1 k2 E1 E2 E3. apply xspawn_all_hout in E1. apply xready_all_hout in E2. apply IH in E3.
+    eapply Rhout_trans; [exact E1 | eapply Rhout_trans; [exact E2 | exact E3]]. }
+  destruct (k_spawn k) eqn:ES; destruct (xready (k_H k)) eqn:ER.
+  - some_eq E; apply Rhout_refl.
+  - destruct (xspawn_all FUEL FUEL k) as [k1|] eqn:E1; [|discriminate].
+    destruct (xready_all FUEL FUEL k1) as [k2|] eqn:E2; [|discriminate]. eapply Hstep; eauto.
+  - destruct (xspawn_all FUEL FUEL k) as [k1|] eqn:E1; [|discriminate].
+    destruct (xready_all FUEL FUEL k1) as [k2|] eqn:E2; [|discriminate]. eapply Hstep; eauto.
+  - destruct (xspawn_all FUEL FUEL k) as [k1|] eqn:E1; [|discriminate].
+    destruct (xready_all FUEL FUEL k1) as [k2|] eqn:E2; [|discriminate]. eapply Hstep; eauto.
+Qed.
+Lemma spawn_cmd_hout c en k : Rhout (k_H k) (k_H (spawn_cmd c en k)).
+Proof.
+  unfold spawn_cmd. destruct (new_cmd _ _ _ _ _ _) as [cid H1] eqn:E. cbn [k_H]. eapply new_cmd_hout; exact E.
+Qed.
+Theorem process_hout : forall fuel hs k k', process FUEL fuel hs k = Some k' -> Rhout (k_H k) (k_H k').
+Proof.
+  induction fuel as [|f IH]; intros hs k k' E; [discriminate|]. cbn [process] in E.
+  destruct (run_all FUEL FUEL k) as [k1|] eqn:E1; [|discriminate].
+  apply run_all_hout in E1.
+  destruct (k_events k1) as [|e rest].
+  - some_eq E. exact E1.
+  - apply IH in E. eapply Rhout_trans; [exact E1|]. eapply Rhout_trans; [|exact E].
+    match goal with |- Rhout _ (k_H (spawn_cmd ?c ?en ?kk)) => eapply Rhout_trans; [|apply (spawn_cmd_hout c en kk)] end.
+    apply Rhout_refl.
+Qed.
+(* the hand-over itself *)
+Theorem take_out_hands_over_everything code k :
+  fst (take_out code k) = OCall code (map oeff_of (hout (k_H k))) (k_log k) /\
+  hout (k_H (snd (take_out code k))) = [] /\
+  k_reqs (snd (take_out code k)) = k_reqs k ++ map (fun e => mkRq e false) (hout (k_H k)).
+Proof. unfold take_out. cbn. auto. Qed.
 
 (* ---------- C03: first in, first out between the event channel and update ---------- *)
 (* The pipeline of a core: the events already applied followed by those still in the channel.  Every
